@@ -57,7 +57,8 @@ TReset == /\ l <= Len(T) /\ Ev.e = "Reset" /\ l' = l + 1
 TCall == /\ Is("Call") /\ ~Has(pend, Ev.t) /\ NoObl
          /\ pend' = Put(pend, Ev.t, Ev)
          /\ closing' = (closing \/ Ev.op = "close")
-         /\ UNCHANGED <<queue, wOwner, wCv, done, leader, grp, grpOps, inserted, lastSeq, sigs, vers, cap, snapOf, committed, failedW, bgSched, bgRun, bgRe>>
+         /\ cap' = (IF Ev.op = "backup" THEN Put(cap, Ev.t, lastSeq) ELSE cap)      \* a backup reflects some point at or after this one
+         /\ UNCHANGED <<queue, wOwner, wCv, done, leader, grp, grpOps, inserted, lastSeq, sigs, vers, snapOf, committed, failedW, bgSched, bgRun, bgRe>>
 \* a write returns OK only after its group was published; with an error it was not applied
 TRetWrite == /\ Is("Ret") /\ Ev.op = "write" /\ Has(pend, Ev.t) /\ pend[Ev.t].op = "write" /\ NoObl
              /\ IF Ev.rc = 0 THEN Ev.t \in committed /\ committed' = committed \ {Ev.t} /\ UNCHANGED failedW
@@ -88,7 +89,18 @@ TRetScan == /\ Is("Ret") /\ Ev.op = "scan" /\ Has(pend, Ev.t) /\ Has(cap, Ev.t) 
                  IN Ev.items = want)
             /\ pend' = Del(pend, Ev.t) /\ cap' = Del(cap, Ev.t)
             /\ UNCHANGED <<queue, wOwner, wCv, done, leader, grp, grpOps, inserted, lastSeq, sigs, vers, snapOf, committed, failedW, bgSched, bgRun, bgRe, closing>>
-TRetOther == /\ Is("Ret") /\ Ev.op \in {"flush", "compact", "prop", "backup", "close"} /\ Has(pend, Ev.t) /\ pend[Ev.t].op = Ev.op /\ NoObl
+\* C20 / C08: a backup taken while others write opens in another process and holds exactly the contents the source had at ONE
+\* point between the call and its return (a group whose log record is already written may be included as a whole)
+InFlightView == [k \in Keys |-> LET w == {i \in 1..Len(grpOps) : grpOps[i][1] = k} IN
+                              IF w = {} THEN ValAt(k, lastSeq) ELSE grpOps[CHOOSE i \in w : \A j \in w : j <= i][2]]
+BackupOk(ev, s0) == /\ ev.rc = 0 /\ ev.open_rc = 0 /\ ev.status = 0
+                    /\ \/ \E s \in s0..lastSeq : ev.items = SortedLive(ViewAt(s))
+                       \/ (leader # 0 /\ grpOps # <<>> /\ ev.items = SortedLive(InFlightView))
+TRetBackup == /\ Is("Ret") /\ Ev.op = "backup" /\ Has(pend, Ev.t) /\ pend[Ev.t].op = "backup" /\ Has(cap, Ev.t) /\ NoObl
+              /\ ((CheckReads => BackupOk(Ev, cap[Ev.t])) = TRUE)
+              /\ pend' = Del(pend, Ev.t) /\ cap' = Del(cap, Ev.t)
+              /\ UNCHANGED <<queue, wOwner, wCv, done, leader, grp, grpOps, inserted, lastSeq, sigs, vers, snapOf, committed, failedW, bgSched, bgRun, bgRe, closing>>
+TRetOther == /\ Is("Ret") /\ Ev.op \in {"flush", "compact", "prop", "close"} /\ Has(pend, Ev.t) /\ pend[Ev.t].op = Ev.op /\ NoObl
              /\ pend' = Del(pend, Ev.t)
              /\ UNCHANGED <<queue, wOwner, wCv, done, leader, grp, grpOps, inserted, lastSeq, sigs, vers, cap, snapOf, committed, failedW, bgSched, bgRun, bgRe, closing>>
 \* C08: the final state equals applying all acknowledged writes in sequence order
@@ -211,7 +223,7 @@ TCloseWaited == /\ Is("CloseWaited") /\ (CheckSignals => (bgSched = 0 /\ bgRun =
 TCloseDone == /\ Is("CloseDone") /\ NoObl /\ U1
 TNote == /\ (Is("open") \/ Is("opts") \/ Is("ManualSet") \/ Is("ManualDone")) /\ NoObl /\ U1
 
-Next == \/ TReset \/ TCall \/ TRetWrite \/ TRetGet \/ TRetSnap \/ TRetSnapGet \/ TRetRel \/ TRetScan \/ TRetOther \/ TFinal
+Next == \/ TReset \/ TCall \/ TRetWrite \/ TRetGet \/ TRetSnap \/ TRetSnapGet \/ TRetRel \/ TRetScan \/ TRetBackup \/ TRetOther \/ TFinal
         \/ TEnq \/ TLead \/ TGroup \/ TLogAppend \/ TLogSync \/ TInsert \/ TPublish \/ TSignal \/ TBcast \/ TCvWait \/ TCvWoke
         \/ TDone \/ TFollowerRet \/ TRoom \/ TGetCap \/ TGetDone \/ TSnapNew \/ TSnapRel \/ TIterNew \/ TIterFree
         \/ TBgSched \/ TPoolSchedule \/ TPoolOther \/ TBgStart \/ TBgEnd \/ TFlushInComp \/ TBgError
